@@ -110,7 +110,11 @@ def run(ck):
                '[cH-]1cccc1', 'O=c1cc[nH]cc1', 'O=c1[nH]cccc1', 'O=C1C=CC(=O)C=C1', 'c1ccc2c(c1)c1ccccc21', 'c1ccc2c(c1)[nH]c1ccccc12', 'Cn1cnc2c1c(=O)n(C)c(=O)n2C', 'c1cc2cccc3ccc4cccc1c4c32',
                'c1ccc(cc1)-c1ccccc1', 'c1c[se]cc1', 'c1ccpcc1', 'c1ccbcc1'.replace('b', 'B').replace('c1ccBcc1', 'B1=CC=CC=C1'), 'c1cc2ccc1CCc1ccc(CC2)cc1', 'C1=CC=CC=CC=C1', 'C1=CC=C1',
                'c1ccc2[nH]ccc2c1', 'c1ccc2occc2c1', 'c1ccc2sccc2c1', 'c1cnc2[nH]ccc2c1', 'c1ccn2ccnc2c1', 'c1cn2ccccc2n1', 'O=c1ccoc2ccccc12', 'O=c1cc(-c2ccccc2)oc2ccccc12', 'c1ccc2nc3ccccc3cc2c1',
-               'Oc1ccccn1', 'Oc1ccncc1', 'Nc1ncnc2[nH]cnc12', 'O=c1[nH]cnc2[nH]cnc12', 'Cc1cc(=O)[nH]c(=O)[nH]1', 'c1ccc2c(c1)ccc1ccccc21']
+               'Oc1ccccn1', 'Oc1ccncc1', 'Nc1ncnc2[nH]cnc12', 'O=c1[nH]cnc2[nH]cnc12', 'Cc1cc(=O)[nH]c(=O)[nH]1', 'c1ccc2c(c1)ccc1ccccc21',
+               # benzo-fused lactams, thiolactams, azinones: exocyclic C=X next to N-N=C / N=C / C=C in the hetero ring
+               'O=C1NN=Cc2ccccc12', 'CN1N=Cc2ccccc2C1=O', 'S=C1NN=Cc2ccccc12', 'O=C1N=Cc2ccccc2N1C', 'O=C1NC=Nc2ccccc12', 'O=C1C=Cc2ccccc2N1', 'O=C1Oc2ccccc2C=C1', 'O=C1NN=Nc2ccccc12',
+               'O=C1NN=C(Cc2ccccc2)c2ccccc12', 'O=C1N(C)N=C(C)c2ccccc12', 'O=C1NC(=O)c2ccccc2N1', 'O=C1N=C(C)Nc2ccccc12', 'S=C1N=Cc2ccccc2N1C', 'O=C1C=NNc2ccccc12', 'O=C1NN=Cc2cnccc12',
+               'O=C1NN=Cc2sccc12', 'O=C1N=CN(C)c2ccccc12', 'N=C1NN=Cc2ccccc12', 'O=C1NN=Cc2cc3ccccc3cc12', 'O=C1NC=Cc2ccccc12', 'O=C1SC=Nc2ccccc12', 'O=C1OC=Nc2ccccc12']
     sel = chy.pick(corp, 200 if ck.quick else 3000, ck.seed)
     cases = [{'key': s, 'smi': s, 'rs': rnd.randrange(1 << 30)} for s in sel + special + doc_pairs() + ring_zoo(rnd, 150 if ck.quick else 4000)]
     seen, uc = set(), []
